@@ -17,6 +17,10 @@ package config
 //@   trusted library contract: the join of a list is nil iff every element is nil
 //@   ensures nil_iff_all_nil: (err == nil) <==> (forall j int :: 0 <= j && j < len(errs) ==> errs[j] == nil)
 
+//@ func errors.Is(err, target) (r)
+//@   trusted library contract (pure): a nil error matches nothing but nil
+//@   ensures nil_err: err == nil && target != nil ==> !r
+
 //@ func newConfigError
 //@   arith int
 //@   properties C15
